@@ -32,6 +32,7 @@ def run(tier, seed):
         "behaviours = every path of MC_Pins: timestamp pinning snapshot by version, optionally digest and length; any published snapshot (version, spelling, size, its own pin of targets); any published targets; non-trivial = a served file differs from its pin in version, digest or length",
         ASSUME)
     delegated_pins(v, cov)
+    cov.update(clientlib.fixture_traces(v, PID, FIELDS, "c05-fx"))
     return v.finish("model_checking", cov, a)
 
 
